@@ -53,8 +53,12 @@ def _case(draw):
         for j in range(i, dim):
             other[i][j] = other[j][i] = draw(st.integers(-5, 5))
     cond = draw(st.sampled_from(CONDS))
+    # what the aggregate has been used for before the state is requested (a state is a function of the system and the
+    # temperature, not of the aggregate object's history)
+    uses = draw(st.lists(st.sampled_from(["diagonalize", "stR", "stR_td", "stR_sec", "stF", "cRF", "redfield_rates"]),
+                         max_size=2))
     return {"spec": spec, "tcode": tcode, "mode": mode, "cond": cond, "ctx": draw(st.sampled_from(CTXS)),
-            "other": other}
+            "other": other, "uses": uses}
 
 
 def strategy(tier):
@@ -83,6 +87,22 @@ def _make(qr, case):
             agg.monomers[0].add_Mode(mode)
             mode.set_nmax(0, md["n0"]); mode.set_nmax(1, md["n1"]); mode.set_HR(1, md["hr"])
     agg.build()
+    t0, nt, dt = spec["time"]
+    for u in case.get("uses", []):
+        if case["mode"] and u in ("stF", "cRF"):
+            continue            # Foerster-type tensors of vibronic aggregates are not available (IndexError)
+        if u == "diagonalize":
+            agg.diagonalize()
+        elif u == "redfield_rates":
+            agg.get_RedfieldRateMatrix()
+        elif u == "cRF":
+            with qr.energy_units("1/cm"):
+                agg.get_RelaxationTensor(qr.TimeAxis(t0, int(nt), dt), relaxation_theory="combined_RedfieldFoerster",
+                                         coupling_cutoff=50.0)
+        else:
+            agg.get_RelaxationTensor(qr.TimeAxis(t0, int(nt), dt),
+                                     relaxation_theory="standard_Foerster" if u == "stF" else "standard_Redfield",
+                                     time_dependent=(u == "stR_td"), secular_relaxation=(u == "stR_sec"))
     return agg
 
 
@@ -122,7 +142,7 @@ def check_case(case, ctx):
     kT = orc.KB_INT * T
     tag = cond + "/" + where_ctx
     near = T > 0 and tedge / 3.0 <= T <= 3.0 * tedge
-    ctx.label(cond, where_ctx, "T=0" if T == 0 else ("near-underflow-edge" if near else ("T<edge" if T < tedge else "T>edge")),
+    ctx.label(cond, where_ctx, "used:" + ("+".join(case.get("uses", [])) or "fresh"), "T=0" if T == 0 else ("near-underflow-edge" if near else ("T<edge" if T < tedge else "T>edge")),
               "modes" if case["mode"] else "electronic")
 
     if cond == "thermal_rdm":
@@ -143,6 +163,7 @@ def check_case(case, ctx):
     # ---- Boltzmann populations in the defining basis ------------------------------------------------------
     electronic = case["mode"] is None
     distinct = False
+    lowest_degenerate = False
     if numpy.all(numpy.isfinite(ref)):
         if cond == "thermal" and electronic:
             E = numpy.array([0.0] + [e * orc.CM2INT for e in spec["E"]])
@@ -152,6 +173,8 @@ def check_case(case, ctx):
         elif cond == "tes_strong" and electronic:
             E = numpy.array([(spec["E"][i] - spec["bath"][i]["reorg"]) * orc.CM2INT for i in range(n)])
             distinct = len(set(numpy.round(E, 9))) >= 2
+            lowest_degenerate = len(E) > 1 and float(numpy.sort(numpy.asarray(E, dtype=float))[1]
+                                                   - numpy.sort(numpy.asarray(E, dtype=float))[0]) < 1e-9
             pops = numpy.real(numpy.diag(ref))
             ctx.bound("ground-state-empty", abs(pops[0]), 1e-12, where=tag)
             _boltz(ctx, pops[1:], E, T, kT, "strong/site-basis")
@@ -168,6 +191,8 @@ def check_case(case, ctx):
                 E.append(Hd[a] - spec["bath"][site]["reorg"] * orc.CM2INT)
             E = numpy.array(E)
             distinct = len(set(numpy.round(E, 9))) >= 2
+            lowest_degenerate = len(E) > 1 and float(numpy.sort(numpy.asarray(E, dtype=float))[1]
+                                                   - numpy.sort(numpy.asarray(E, dtype=float))[0]) < 1e-9
             pops = numpy.real(numpy.diag(ref))
             ctx.bound("ground-state-empty", float(numpy.max(numpy.abs(pops[:nb0]))), 1e-12, where=tag)
             _boltz(ctx, pops[nb0:nb0 + len(E)], E, T, kT, "strong/vibronic-site-basis")
@@ -179,6 +204,8 @@ def check_case(case, ctx):
             rho_ex = S.T @ ref @ S
             E = ev[nb0:]
             distinct = len(set(numpy.round(E, 9))) >= 2
+            lowest_degenerate = len(E) > 1 and float(numpy.sort(numpy.asarray(E, dtype=float))[1]
+                                                   - numpy.sort(numpy.asarray(E, dtype=float))[0]) < 1e-9
             pops = numpy.real(numpy.diag(rho_ex))
             ctx.bound("ground-state-empty", float(numpy.max(numpy.abs(pops[:nb0]))), 1e-10, where=tag)
             _boltz(ctx, pops[nb0:], E, T, kT, "weak/exciton-basis")
@@ -210,7 +237,9 @@ def check_case(case, ctx):
                 ctx.fail("finite", tag)
             else:
                 _valid(ctx, got, tag, unit_trace=(cond != "impulsive"))
-                if cond in ("tes_weak", "tes_strong"):
+                # (at T = 0 with a degenerate lowest level "the" state is not unique: any state of the degenerate
+                # subspace is a valid answer and which one comes out depends on the basis the eigensolver picks)
+                if cond in ("tes_weak", "tes_strong") and not (T == 0.0 and lowest_degenerate):
                     ctx.close("same-state-inside-and-outside", got, ref, rtol=0, atol=1e-9, where=tag, T=T)
 
 
